@@ -92,6 +92,14 @@ pub fn exec(spec: &Value, r: &mut RunResult) {
                 let ub = stderr.lines().filter(|l| l.contains("error:") || l.contains("Undefined Behavior") || l.contains("memory leaked")).take(4).collect::<Vec<_>>().join(" | ");
                 r.violate("miri-reported-an-error", format!("fold-sim under Miri did not complete: {}", if ub.is_empty() { stderr.chars().rev().take(600).collect::<String>().chars().rev().collect() } else { ub }), None);
                 r.pin = Some(json!({"miri": true}));
+            } else if let Some(sig) = std::os::unix::process::ExitStatusExt::signal(&out.status) {
+                // the real allocator or the CPU stopped the process (double free detected by glibc, SIGSEGV, SIGABRT):
+                // memory unsafety observed directly — a finding, not a harness error
+                r.violate(
+                    "process-killed-by-signal",
+                    format!("fold-sim died with signal {} while folding: {}", sig, stderr.chars().rev().take(300).collect::<String>().chars().rev().collect::<String>().replace('\n', " | ")),
+                    None,
+                );
             } else {
                 r.outcome = format!("harness-panic: fold-sim produced no result (status {:?}): {}", out.status.code(), stderr.chars().take(300).collect::<String>());
             }
